@@ -457,7 +457,22 @@ func (c *Client) Tx(ctx context.Context, hash []byte, prove bool) (*ctypes.Resul
 	}
 
 	// Validate the proof.
-	return res, res.Proof.Validate(l.DataHash)
+	if err := res.Proof.Validate(l.DataHash); err != nil {
+		return nil, err
+	}
+
+	// The proof is about Proof.Data at position Proof.Proof.Index: the
+	// transaction, hash and index returned alongside must be those.
+	if !bytes.Equal(res.Proof.Data, res.Tx) {
+		return nil, errors.New("transaction does not match the proven transaction")
+	}
+	if !bytes.Equal(res.Hash, res.Tx.Hash()) {
+		return nil, errors.New("hash does not match the transaction")
+	}
+	if int64(res.Index) != res.Proof.Proof.Index {
+		return nil, fmt.Errorf("index %d does not match the proven position %d", res.Index, res.Proof.Proof.Index)
+	}
+	return res, nil
 }
 
 func (c *Client) TxSearch(
